@@ -18,7 +18,7 @@ SCENARIO_DRAW = ["ooo_batch", "carriers", "bad_batch", "stale_handle", "torn_upd
                       "remove_first", "ooo_then_remove", "nested_not", "reset_then_time", "nan_fields", "epoch", "sparse_write", "sparse_write", "future_untimed", "range_ends", "noop_compose", "substring_names", "same_size", "one_us_late", "mixed_quoting", "far_sorted", "getter_memo", "handle_sorted", "odd_strings", "shared_maps", "hash_twins", "same_count", "redate", "fold_twins", "big_ties", "handle_unset", "same_row_twice", "or_not", "noop_match", "minute_marks", "none_name", "merge_rename", "tiny_float_change", "big_ints", "redate_remove", "underscore_keys", "buffered_handle"]
 # scenarios that are only ever FORCED (dbtie runs every scenario once per configuration; a check names the ones it wants in both passes under
 # 'scenario_also'): adding one here leaves every random history - and what it is known to catch - what it was
-SCENARIO_FORCED_ONLY = ["ne_writes"]
+SCENARIO_FORCED_ONLY = ["ne_writes", "line_separators", "dotted_keys", "front_rows_removed", "raising_test_update"]
 SCENARIOS = list(dict.fromkeys(SCENARIO_DRAW)) + SCENARIO_FORCED_ONLY
 
 
@@ -921,6 +921,67 @@ class Gen:
                 ops += [("count", q, None), r.choice([("remove", q2, None), ("update", q2, {"tags": ("static", {"hit": "1"})}, None), ("remove", q2, None)])] + obs + [("all", False)]
                 ops += [("insert", pts[:3], None, "multiple")] + obs
             ops += [("count", tne, None), ("count", fne, None), ("search", ("and", fne, tne), None, False)]
+        elif k == "line_separators":
+            # strings holding the characters str.splitlines() breaks at but the csv module does not (VT, FF, FS, GS, RS, NEL, U+2028, U+2029): they are
+            # ordinary characters of a cell; scans, getters, rewrites and a reopen must see the rows whole
+            pts = self.points_batch(r.choice([4, 5]), in_order=True)
+            seps = ["\x0b", "\x0c", "\x1c", "\x1d", "\x1e", "\x85", "\u2028", "\u2029"]
+            for i, p in enumerate(pts):
+                a, b = r.sample(seps, 2)
+                p["tags"]["note"] = ["east" + a + "wing", a, "x" + a + b + "y", b + "lead", "trail" + a][i % 5]
+                p["tags"]["n"] = "abcdefgh"[i]
+                if i % 2:
+                    p["meas"] = "m" + b + "1"
+            ops += [("insert", pts[:2], None, "multiple"), ("insert", pts[2:], None, "multiple")] + self.file_obs() + obs
+            ops += [("all", False), ("get_measurements",), ("get_tag_values", ["note"], None), ("len",), ("count", ("S", "tags", [("k", "note")], ("exists",)), None)]
+            ops += [(("reopen", r.random() < 0.5) if csv else ("reindex",)), ("len",), ("get_measurements",), ("get_tag_values", [], None), ("all", False)]
+            w = r.choice(["a", "b"])
+            ops += [("update", ("S", "tags", [("k", "n")], ("cmp", "==", ("s", w))), {"fields": ("static", {"seen": 1})}, None)] + self.file_obs() + obs + [("all", False)]
+            ops += [("remove", ("S", "tags", [("k", "n")], ("cmp", "==", ("s", "c"))), None)] + self.file_obs() + obs + [("all", False)]
+            if csv:
+                ops += [("reopen", True), ("all", False), ("get_tag_values", ["note"], None)]
+        elif k == "dotted_keys":
+            # tag keys that start with "tags." and field keys that start with "fields." (flattened documents), next to their undotted namesakes:
+            # a getter asked for a key answers for exactly that key
+            pts = self.points_batch(r.choice([4, 5]), in_order=True)
+            for i, p in enumerate(pts):
+                p["tags"]["tags.city"], p["tags"]["city"] = "dotted" + str(i % 2), "plain" + str(i % 3)
+                p["fields"]["fields.temp"], p["fields"]["temp"] = 100 + i, i
+                if i % 2:
+                    p["tags"]["tags.tags.x"] = "deep"
+                    p["fields"]["fields."] = -1
+            ops += [("insert", pts, None, "multiple")] + obs
+            reads = [("get_field_values", "fields.temp", None), ("get_field_values", "temp", None), ("get_tag_values", ["tags.city"], None), ("get_tag_values", ["city"], None),
+                     ("get_tag_values", ["tags.city", "city"], None), ("get_field_values", "fields.", None), ("get_tag_values", ["tags.tags.x", "tags.x", "x"], None),
+                     ("get_field_keys", None), ("get_tag_keys", None), ("handle", pts[0]["meas"], ("get_field_values", "fields.temp")), ("handle", pts[0]["meas"], ("get_tag_values", ["tags.city"]))]
+            ops += reads + [(("reopen", False) if csv else ("reindex",))] + reads
+        elif k == "front_rows_removed":
+            # storage NOT in time order (a late insert, then a rebuild), then a removal - named by tag, through the index - of exactly the FIRST rows of
+            # storage, which are not the oldest points: the time arrays must lose those points and no others
+            pts = self.points_batch(r.choice([5, 6]), in_order=True)
+            for i, p in enumerate(pts):
+                p["tags"]["n"] = "abcdefgh"[i]
+            order = [pts[3], pts[4]] + pts[:3] + pts[5:]          # rows 0, 1 hold the 4th and 5th oldest instants
+            for j, p in enumerate(order):
+                p["tags"]["row"] = "front" if j < 2 else "back"
+            ops += [("insert", order[:2], None, "multiple"), ("insert", order[2:], None, "multiple"), ("index_valid",), ("get_timestamps", None), ("index_valid",)]
+            kq = r.choice([("S", "tags", [("k", "row")], ("cmp", "==", ("s", "front"))), ("S", "tags", [("k", "n")], ("cmp", "==", ("s", "d")))])
+            ops += [("remove", kq, None), ("index_valid",), ("get_timestamps", None), ("count", ("S", "time", [], ("cmp", "<=", ("t", pts[2]["time"]))), None),
+                    ("search", ("S", "time", [], ("cmp", ">=", ("t", pts[3]["time"]))), None, True), ("count", ("S", "time", [], ("cmp", "==", ("t", pts[4]["time"]))), None),
+                    ("all", True), ("iter",)]
+        elif k == "raising_test_update":
+            # an update (or removal) whose QUERY holds a user test that raises on a later point - after earlier points were already matched and changed:
+            # the call raises and the contents are what they were
+            pts = self.points_batch(r.choice([4, 5]), in_order=True)
+            for i, p in enumerate(pts):
+                p["fields"]["a"] = [3, 5, None, 2, 4][i % 5]          # test 1 (x > 0, numbers only) raises on the None
+                p["tags"]["n"] = "abcdefgh"[i]
+            ops += [("insert", pts, None, "multiple")] + obs
+            bad = ("S", "fields", [("k", "a")], ("user", 1))
+            q = r.choice([bad, ("not", ("not", bad)), ("and", ("S", "tags", [("k", "n")], ("exists",)), bad)])
+            ops += [("update", q, {"fields": ("static", {"a": 9})}, None)] + obs + [("all", False)]
+            ops += [("update", ("not", bad), {"tags": ("static", {"hit": "1"})}, None)] + obs + [("all", False)]
+            ops += [("remove", r.choice([("not", bad), bad]), None)] + obs + [("all", False), ("get_field_values", "a", None)]
         elif k == "underscore_keys":
             # tag / field keys with underscores in them, written with compact key prefixes; removals and updates decided by SCANNING (a negated field
             # test is not answered by the index; so is everything when automatic indexing is off)
